@@ -345,12 +345,38 @@ def chain_oracle(op, line, opl, rp, violation, outcomes, feats, distinct):
         violation("router-registration-not-honoured", f"method {meth!r}: registrations {same} (last wins), resolvers asked {asked}", rp)
 
 
+def rtime_oracle(op, line, opl, rp, violation, outcomes, feats, distinct):
+    """resolution at a point in time (deepening round 3): the newest version that existed at the resolve time decides —
+    computed here from the op's version list, independent of model and implementation"""
+    vers, at, allow = op.get("vers") or [], op.get("at"), bool(op.get("allow"))
+    didb = b"did:web:" + bytes.fromhex(op.get("id", ""))
+    distinct.add(("rtime", op.get("id"), json.dumps(vers), at, allow))
+    elig = [(i, v) for i, v in enumerate(vers) if at is None or v["t"] <= at]
+    newest = elig[-1][1] if elig else None
+    feats["rtime-" + ("no-resolve-time" if at is None else "nothing-yet" if newest is None else "historic" if elig[-1][0] < len(vers) - 1 else "latest")] += 1
+    outcomes["rtime " + ":".join(line[6:].split(":")[:2] if line.startswith("rtime err") else ["ok"])] += 1
+    if line.startswith("rtime ok:"):
+        _, idhex, upd, deact = line[6:].split(":")
+        if bytes.fromhex(idhex) != didb:
+            violation("document-id-differs", f"returned document id {bytes.fromhex(idhex)!r} for {didb!r}", rp)
+        if newest is None:
+            violation("resolve-time-version-from-the-future", f"{didb!r} resolved at {at} although its first version is stamped {min(v['t'] for v in vers) if vers else None}", rp)
+        elif not newest["a"] and not allow:
+            violation("deactivated-resolved", f"deactivated {didb!r} (versions {vers}, resolve time {at}) resolved without AllowDeactivated", rp)
+        elif int(upd) != newest["t"] or (deact == "true") != (not newest["a"]):
+            violation("resolve-time-wrong-version", f"{didb!r} versions {vers} at {at}: answered with the version stamped {upd} (deactivated={deact}), the newest at that time is {newest}", rp)
+    elif line == "rtime err:not-found" and newest is not None:
+        violation("managed-did-not-found", f"{didb!r} versions {vers} at {at}: not found", rp)
+    elif line == "rtime err:deactivated" and (newest is None or newest["a"] or allow):
+        violation("active-did-refused-as-deactivated", f"{didb!r} versions {vers} at {at} allow={allow}: refused as deactivated", rp)
+
+
 def run(ctx):
     ctx.facts()
     thms = ctx.build_and_audit(["NutsProofs.Props.C18"])
     required = ["did_url_roundtrip", "fetch_origin_bound", "redirects_stay_on_origin", "strict_client_https_only",
                 "redirect_witness", "id_bound_web", "id_bound", "jwk_key_pure", "local_first_no_network",
-                "deactivated_needs_flag", "local_store_fault_no_network", "fact_local_resolver_errors", "fact_local_time_bound", "fact_cache_index", "fact_cache_flow", "rcache_invariant", "rcache_hit_sound", "rcache_hit_same_url", "rcache_round_trip_adds_only_this_cacheable_get", "fact_did_key_table", "did_key_accept_sound", "multicodec_prefix_roundtrip", "rcache_hit_not_expired", "old_cache_defect_witness", "fact_local_lookup_query", "local_lookup_exact", "local_lookup_ignores_other_dids", "local_sql_refines", "local_resolution_independent_of_other_dids", "x509_reference_is_the_identifier", "x509_split_join", "x509_policies_all_enforced", "x509_validation_cert_named_by_every_thumbprint", "x509_accept_sound", "x509_nil_metadata_panics", "fact_x509_tables", "fact_did_jwk_flow", "fact_chain_router_flow", "chain_first_answer_wins", "chain_stops_at_first_answer", "router_exact_method", "router_last_registration_wins", "resolve_web_is_chain", "did_jwk_accept_sound", "b64_decode_encode", "did_jwk_of_encoded_text", "cache_key_injective", "cache_no_foreign_entry", "fact_sets", "fact_content_types", "fact_redirect_policy", "fact_router",
+                "deactivated_needs_flag", "local_store_fault_no_network", "fact_local_resolver_errors", "fact_local_time_bound", "fact_cache_index", "fact_cache_flow", "rcache_invariant", "rcache_hit_sound", "rcache_hit_same_url", "rcache_round_trip_adds_only_this_cacheable_get", "fact_did_key_table", "did_key_accept_sound", "multicodec_prefix_roundtrip", "rcache_hit_not_expired", "old_cache_defect_witness", "fact_local_lookup_query", "local_lookup_exact", "local_lookup_ignores_other_dids", "local_sql_refines", "local_resolution_independent_of_other_dids", "x509_reference_is_the_identifier", "x509_split_join", "x509_policies_all_enforced", "x509_validation_cert_named_by_every_thumbprint", "x509_accept_sound", "x509_nil_metadata_panics", "fact_x509_tables", "fact_did_jwk_flow", "fact_local_resolve_time", "local_lookup_newest_at_time", "local_lookup_not_found_iff", "deactivated_from_then_on", "fact_chain_router_flow", "chain_first_answer_wins", "chain_stops_at_first_answer", "router_exact_method", "router_last_registration_wins", "resolve_web_is_chain", "did_jwk_accept_sound", "b64_decode_encode", "did_jwk_of_encoded_text", "cache_key_injective", "cache_no_foreign_entry", "fact_sets", "fact_content_types", "fact_redirect_policy", "fact_router",
                 "fact_deactivation", "fact_resolve_checks_document_id", "fact_strict_do"]
     for r in required:
         if not any(t.endswith("Props." + r) for t in thms):
@@ -513,6 +539,8 @@ def run(ctx):
             hc_oracle(op, line, opl, violation, outcomes, feats, distinct)
         elif kind in ("chain", "router"):
             chain_oracle(op, line, opl, (node_line or '{"op":"node"}') + "\n" + opl, violation, outcomes, feats, distinct)
+        elif kind == "rtime":
+            rtime_oracle(op, line, opl, (node_line or '{"op":"node"}') + "\n" + opl, violation, outcomes, feats, distinct)
         elif kind == "jwk":
             jwk_oracle(op, line, opl, (node_line or '{"op":"node"}') + "\n" + opl, violation, outcomes, feats, distinct, digests)
         elif kind == "resolve":
